@@ -67,8 +67,8 @@ PROPS = {
     'C09': dict(
         level='model_checking', design_ref='5/C09', oracle='C09',
         technique='explicit-state exploration of direct/fork/entry-point/exit-point rows incl. the exit event sent from outside + reference-model conformance',
-        quick=[S('entry')],
-        thorough=[S('entry'), S('histS')],
+        quick=[S('entry'), S('histS', cfgs=['b', 'bc', 'b11', 'm'])],
+        thorough=[S('entry'), S('histS'), S('histA'), S('histN')],
         rule='every reachable configuration of the submachine x every event (incl. the exit point event from outside) x guard valuations',
     ),
     'C04': dict(
@@ -156,7 +156,7 @@ PROPS = {
         quick=[dict(zoo=z, cfgs=ALL, ops=pe_all(z), compare_ids=True) for z in ('flat_c', 'hier2_c', 'ortho_c', 'entry_c', 'histS')] +
               [dict(zoo='compl', cfgs=ALL, ops=['start', 'pe:1', 'pe:2', 'pe:3', 'pe:4', 'eq:4', 'xq'], qbound=2),
                dict(zoo='defer_c', cfgs=ALL, ops=['start', 'pe:1', 'pe:2', 'pe:3', 'pe:4', 'pe:5'], qbound=2),
-               dict(zoo='hier2_c', cfgs=ALL, ops=['start', 'pe:1', 'pe:3', 'eq:1', 'xq'], submits=1, guards=1, qbound=2)],
+               dict(zoo='hier2_c', cfgs=['b', 'bc', 'b11', 'm', 'mf'], ops=['start', 'pe:1', 'eq:1', 'xq'], submits=1, guards=1, qbound=2)],
         thorough=[dict(zoo=z, cfgs=ALL, ops=pe_all(z) + ['eq:1', 'xq'], compare_ids=True) for z in ('flat_c', 'hier2_c', 'ortho_c', 'entry_c', 'histN', 'histA', 'histS', 'hier3')] +
                  [dict(zoo='compl', cfgs=ALL, ops=['start', 'stop', 'pe:1', 'pe:2', 'pe:3', 'pe:4', 'eq:4', 'eq:1', 'xq', 'xs'], qbound=2),
                   dict(zoo='defer_c', cfgs=ALL, ops=['start', 'pe:1', 'pe:2', 'pe:3', 'pe:4', 'pe:5', 'eq:3', 'xq'], qbound=3),
